@@ -11,6 +11,8 @@ import DendroModel.Theory.C08Labels
 import DendroModel.Theory.C08Upd
 import DendroModel.Theory.C08Parse
 import DendroModel.Theory.C08Strike
+import DendroModel.Theory.C08UpdFull
+import DendroModel.Theory.C08Heap
 /-! C08 — property theorems.  Every `theorem` directly in `namespace DendroModel.C08` of this file is an obligation.
 They are statements about the definitions `drv_c08` executes (`Model/C08.lean`): the mechanisms as the code runs them
 (`pruneTaxa` = strike pass + leaf-removal loop + `T.sup`; `filterLeaves`; `retainTaxa`; `extractTree` = memo-driven fold over
@@ -705,6 +707,192 @@ theorem plwt_upd_eq (rooted : Option Bool) (sup : Bool) (t : T) (h : InnerNoTaxo
     simp only at h1 h2
     exact ⟨r0, rfl, h1, by rw [h2, h1]⟩
 
+/-! ### `update_bipartitions=True` on trees that are not rooted, in full -/
+
+/-- GAP CLOSED (unrooted `update_bipartitions`): on a tree that is not rooted (`is_rooted` False or None) the re-encoding after an
+    in-place pruning leaves exactly the induced subtree with its basal bifurcation collapsed — nothing else moves: with suppression
+    requested there is nothing left to suppress, the collapse creates no unary node — and stores one (leafset, split) pair per node of
+    that tree in post-order, the split being the leafset normalised within the tree's own leafset on its lowest set bit
+    (`Hier.norm`: complement within the leafset when the lowest bit is in, else unchanged).  The integer functions underneath are the
+    ones regenerated from the source (`Gen/PyBits`). -/
+theorem upd_unrooted_encoding (rooted : Option Bool) (hroot : rooted ≠ some true) (keep : Acc) (sup : Bool) (t r : T)
+    (hr : restrict keep sup t = some r) :
+    reencode rooted sup r =
+      (r.collapseBasal, r.collapseBasal.masksPost.map (fun m => (m, ((Hier.norm r.mask (Lsb.lsb r.mask) m : Nat) : Int)))) :=
+  reencode_unrooted_full rooted hroot sup r (fun h => sup_no_unary keep t r (h ▸ hr))
+
+/-- the stored encoding equals a FRESH encoding of the pruned tree, every rooting state: running `encode_bipartitions` (same flags)
+    once more on the tree that `update_bipartitions=True` left behind neither changes that tree nor yields another list -/
+theorem upd_encoding_is_fresh (rooted : Option Bool) (keep : Acc) (sup : Bool) (t r : T) (hr : restrict keep sup t = some r) :
+    reencode rooted sup (reencode rooted sup r).1 = reencode rooted sup r := by
+  by_cases hroot : rooted = some true
+  · subst hroot
+    rw [upd_rooted_encoding keep sup t r hr]
+    exact upd_rooted_encoding keep sup t r hr
+  · exact reencode_unrooted_idem rooted hroot sup r (fun h => sup_no_unary keep t r (h ▸ hr))
+
+/-- the whole call, not rooted: `prune_taxa` / `retain_taxa` / `filter_leaf_nodes(…, update_bipartitions=True)` on a tree whose taxa
+    sit on leaves = induced subtree, basal collapse, closed-form encoding -/
+theorem upd_unrooted_calls (rooted : Option Bool) (hroot : rooted ≠ some true) (ns : List Nat) (K : Nat → Bool) (sup : Bool) (t : T)
+    (h : InnerNoTaxon t) (hns : ∀ lf ∈ t.leaves, ∀ k, lf.taxon = some k → k ∈ ns) :
+    let want := (restrict (keepTaxa K) sup t).map (fun r =>
+      (r.collapseBasal, r.collapseBasal.masksPost.map (fun m => (m, ((Hier.norm r.mask (Lsb.lsb r.mask) m : Nat) : Int)))))
+    pruneTaxaUpd rooted (fun k => !K k) sup t = want ∧ retainTaxaUpd rooted ns K sup t = want ∧
+    filterLeavesUpd rooted (keepTaxa K) sup t = want := by
+  obtain ⟨h1, h2, h3⟩ := upd_eq_fresh_encoding rooted ns K sup t h hns
+  have e : (restrict (keepTaxa K) sup t).map (reencode rooted sup) = (restrict (keepTaxa K) sup t).map (fun r =>
+      (r.collapseBasal, r.collapseBasal.masksPost.map (fun m => (m, ((Hier.norm r.mask (Lsb.lsb r.mask) m : Nat) : Int))))) := by
+    cases hr : restrict (keepTaxa K) sup t with
+    | none => rfl
+    | some r => simp only [Option.map_some]; rw [upd_unrooted_encoding rooted hroot _ sup t r hr]
+  exact ⟨h1.trans e, h2.trans e, h3.trans e⟩
+
+/-- `prune_subtree(node, update_bipartitions=True)` on a tree that is not rooted -/
+theorem upd_subtree_unrooted (rooted : Option Bool) (hroot : rooted ≠ some true) (i : Nat) (sup : Bool) (t sub : T)
+    (hnd : (ids t).Nodup) (hne : t.id ≠ i) (hf : t.find? i = some sub) (hk : (cut i t).cs.isEmpty = false) :
+    pruneSubtreeUpd rooted i sup t =
+      ((pruneSubtree i sup t).collapseBasal, (pruneSubtree i sup t).collapseBasal.masksPost.map (fun m =>
+        (m, ((Hier.norm (pruneSubtree i sup t).mask (Lsb.lsb (pruneSubtree i sup t).mask) m : Nat) : Int)))) := by
+  have h := prune_subtree_eq_restrict i sup t sub hnd hne hf
+  rw [hk] at h
+  simp only [Bool.false_eq_true, if_false] at h
+  exact upd_unrooted_encoding rooted hroot _ sup t _ h
+
+/-- the basal collapse is idempotent on any tree, and keeps a tree free of unary nodes free of them -/
+theorem collapse_basal_idempotent (t : T) :
+    t.collapseBasal.collapseBasal = t.collapseBasal ∧ (NoUnary t → NoUnary t.collapseBasal) :=
+  ⟨collapse_idem t, collapse_noUnary t⟩
+
+/-! ### tie (A): kernels regenerated from the source on every run (`Gen/C08Kernels.lean`) equal the model's -/
+
+/-- `str.lower()` on ASCII + Latin-1 in closed form: A–Z and À–Þ (without ×) move up by 32, everything else stays -/
+def lowerLatin1 (c : Nat) : Nat := if (65 ≤ c ∧ c ≤ 90) ∨ (192 ≤ c ∧ c ≤ 222 ∧ c ≠ 215) then c + 32 else c
+
+/-- GAP CLOSED (non-ASCII case folding, up to the stated boundary): the fold method the source applies to BOTH the given and the
+    stored label is `lower`, and its regenerated table is, for every code point below 256, the closed form above (one code point
+    in, one out).  Above 255 the model claims nothing and the driver answers `out-of-range`. -/
+theorem fold_table_is_latin1_lower :
+    C08Kernels.foldMethod = "lower" ∧ C08Kernels.foldLimit = 256 ∧ ∀ c, c < 256 → C08Kernels.foldCp c = [lowerLatin1 c] := by
+  refine ⟨by decide, rfl, ?_⟩
+  decide +kernel
+
+/-- on ASCII the regenerated folding is the core library's `Char.toLower` (what the model used before) -/
+theorem fold_ascii_is_toLower : ∀ c, c < 128 → (C08Kernels.foldCp c).map Char.ofNat = [(Char.ofNat c).toLower] := by
+  decide +kernel
+
+/-- label matching folds both sides the same way, so it is an equivalence: a label matches itself, and taxa matching the same given
+    label match each other (what makes "the leaves whose label is named" well defined) -/
+theorem labelMatch_equiv (cs : Bool) (a b c : String) :
+    labelMatch cs a a = true ∧ (labelMatch cs a b = labelMatch cs b a) ∧
+    (labelMatch cs a b = true → labelMatch cs b c = true → labelMatch cs a c = true) := by
+  refine ⟨by simp [labelMatch], ?_, ?_⟩
+  · simp only [labelMatch]; exact Bool.eq_iff_iff.mpr ⟨fun h => by simpa using (by simpa using h : _ = _).symm, fun h => by simpa using (by simpa using h : _ = _).symm⟩
+  · simp only [labelMatch, beq_iff_eq]; intro h1 h2; rw [h2, h1]
+
+/-- a case-sensitive namespace compares labels as they are; a case-insensitive one identifies exactly the labels with equal folds -/
+theorem labelMatch_spec (own given : String) :
+    (labelMatch true own given = true ↔ given = own) ∧ (labelMatch false own given = true ↔ foldStr given = foldStr own) := by
+  simp [labelMatch, foldCase]
+
+theorem frac_add_comm (a b : Frac) : a + b = b + a := by
+  show Frac.add a b = Frac.add b a
+  simp only [Frac.add, Int.add_comm, Nat.mul_comm]
+
+/-- the edge-length merge of `Tree.suppress_unifurcations` and of `Node.extract_subtree`, regenerated from the nested `if`s of the
+    source, is the model's `addLen` (child first, parent second); both mechanisms test for exactly ONE child -/
+theorem merge_kernels_are_addLen (child parent : Option Frac) :
+    C08Kernels.mergeSuppress child parent = addLen child parent ∧ C08Kernels.mergeExtract child parent = addLen child parent ∧
+    C08Kernels.oneChildSuppress = 1 ∧ C08Kernels.oneChildExtract = 1 := by
+  refine ⟨?_, ?_, by decide, by decide⟩ <;>
+    cases child <;> cases parent <;> simp [C08Kernels.mergeSuppress, C08Kernels.mergeExtract, addLen, frac_add_comm]
+
+/-- the filters the four `extract_tree_with(out)_taxa(_labels)` wrappers build (regenerated from their lambdas) are the model's
+    `taxonFilter` (taxon-less nodes pass; membership resp. non-membership otherwise), they apply it to leaves only, and they forward
+    the caller's `suppress_unifurcations` unchanged -/
+theorem wrapper_kernels_are_taxonFilter (K : Nat → Bool) (i : Nat) (x : Option Nat) (sup : Bool) :
+    C08Kernels.withTaxaFilter K x = taxonFilter K i x ∧ C08Kernels.withLabelsFilter K x = taxonFilter K i x ∧
+    C08Kernels.withoutTaxaFilter K x = taxonFilter (fun k => !K k) i x ∧
+    C08Kernels.withoutLabelsFilter K x = taxonFilter (fun k => !K k) i x ∧
+    [C08Kernels.withTaxaLeafFlag, C08Kernels.withoutTaxaLeafFlag, C08Kernels.withLabelsLeafFlag, C08Kernels.withoutLabelsLeafFlag]
+      = [true, true, true, true] ∧
+    [C08Kernels.withTaxaInnerFlag, C08Kernels.withoutTaxaInnerFlag, C08Kernels.withLabelsInnerFlag, C08Kernels.withoutLabelsInnerFlag]
+      = [false, false, false, false] ∧
+    [C08Kernels.withTaxaSup sup, C08Kernels.withoutTaxaSup sup, C08Kernels.withLabelsSup sup, C08Kernels.withoutLabelsSup sup]
+      = [sup, sup, sup, sup] := by
+  refine ⟨?_, ?_, ?_, ?_, by decide, by decide, by cases sup <;> decide⟩ <;>
+    cases x <;> simp [C08Kernels.withTaxaFilter, C08Kernels.withLabelsFilter, C08Kernels.withoutTaxaFilter,
+      C08Kernels.withoutLabelsFilter, C08Kernels.memS, taxonFilter]
+
+/-- hence the wrappers, AS REGENERATED (filter, flags, forwarded suppression), are the model's entry points and yield the induced
+    subtree -/
+theorem wrappers_regenerated_eq_restrict (K : Nat → Bool) (sup : Bool) (t : T) (hnd : (ids t).Nodup)
+    (hl : ∀ lf ∈ t.leaves, lf.taxon ≠ none) :
+    (extractTree (fun _ x => C08Kernels.withTaxaFilter K x) C08Kernels.withTaxaLeafFlag C08Kernels.withTaxaInnerFlag
+      (C08Kernels.withTaxaSup sup) t).toOption = restrict (keepTaxa K) sup t ∧
+    (extractTree (fun _ x => C08Kernels.withoutTaxaFilter K x) C08Kernels.withoutTaxaLeafFlag C08Kernels.withoutTaxaInnerFlag
+      (C08Kernels.withoutTaxaSup sup) t).toOption = restrict (keepTaxa (fun k => !K k)) sup t := by
+  have e1 : (fun (_ : Nat) x => C08Kernels.withTaxaFilter K x) = taxonFilter K := by
+    funext i x; exact (wrapper_kernels_are_taxonFilter K i x sup).1
+  have e2 : (fun (_ : Nat) x => C08Kernels.withoutTaxaFilter K x) = taxonFilter (fun k => !K k) := by
+    funext i x; exact (wrapper_kernels_are_taxonFilter K i x sup).2.2.1
+  rw [e1, e2]
+  refine ⟨?_, ?_⟩
+  · show (extractTree (taxonFilter K) true false sup t).toOption = _
+    rw [extract_eq_restrict _ sup t hnd, taxonFilter_restrict K sup t hl]
+  · show (extractTree (taxonFilter (fun k => !K k)) true false sup t).toOption = _
+    rw [extract_eq_restrict _ sup t hnd, taxonFilter_restrict _ sup t hl]
+
+/-- the default values of the boolean flags of every entry point, as the source declares them today, are the ones the model and the
+    harness assume when an argument is omitted: suppress on, update off, recursive on, leaf filter on, internal filter off -/
+theorem defaults_as_modelled :
+    ∀ p ∈ C08Kernels.defaults, p.2 = (p.1.endsWith "suppress_unifurcations" || p.1.endsWith "recursive" ||
+      p.1.endsWith "is_apply_filter_to_leaf_nodes") := by
+  decide +kernel
+
+/-- … and the list covers the entry points of the property (30 flags) -/
+theorem defaults_cover : C08Kernels.defaults.map (·.1) =
+    ["extractTree.suppress_unifurcations", "extractTree.is_apply_filter_to_leaf_nodes", "extractTree.is_apply_filter_to_internal_nodes",
+     "pruneTaxa.suppress_unifurcations", "pruneTaxa.update_bipartitions", "pruneTaxa.is_apply_filter_to_leaf_nodes",
+     "pruneTaxa.is_apply_filter_to_internal_nodes", "pruneLabels.suppress_unifurcations", "pruneLabels.update_bipartitions",
+     "pruneLabels.is_apply_filter_to_leaf_nodes", "pruneLabels.is_apply_filter_to_internal_nodes", "retainTaxa.suppress_unifurcations",
+     "retainTaxa.update_bipartitions", "retainLabels.suppress_unifurcations", "retainLabels.update_bipartitions",
+     "filterLeaves.suppress_unifurcations", "filterLeaves.update_bipartitions", "filterLeaves.recursive", "plwt.suppress_unifurcations",
+     "plwt.update_bipartitions", "plwt.recursive", "pruneSubtree.suppress_unifurcations", "pruneSubtree.update_bipartitions",
+     "withTaxa.suppress_unifurcations", "withoutTaxa.suppress_unifurcations", "withLabels.suppress_unifurcations",
+     "withoutLabels.suppress_unifurcations", "extractSubtree.suppress_unifurcations", "extractSubtree.is_apply_filter_to_leaf_nodes",
+     "extractSubtree.is_apply_filter_to_internal_nodes"] := by
+  decide +kernel
+
+/-! ### extraction never alters the source tree: frame theorem on the object store (`Model/C08Heap.lean`, driver op `extractheap`) -/
+
+/-- GAP CLOSED (source immutability, was oracle only): run `Node.extract_subtree` as the code runs it on an object store `h` that
+    holds the source tree (any store, any tree, any filter, any flags) — attributes of source nodes READ from the store, every
+    assignment of the loop WRITTEN to the store, including the in-place `+=` on `children_to_add[0].edge.length` and the stray
+    `nd1.edge.length = …` of the merge branch.  Then every object that existed before the call is bit for bit what it was, the store
+    only grew, and the `nd1` write never hits `None` (no `AttributeError`). -/
+theorem extract_frame (acc : Acc) (fl fi sup : Bool) (t : T) (h : List Cell) :
+    (∀ a, a < h.length → (extractHeap acc fl fi sup t h).heap[a]? = h[a]?) ∧
+    (extractHeap acc fl fi sup t h).heap.take h.length = h ∧
+    h.length ≤ (extractHeap acc fl fi sup t h).heap.length ∧ (extractHeap acc fl fi sup t h).crashed = false := by
+  obtain ⟨I, hc⟩ := extractHeap_inv acc fl fi sup t h
+  refine ⟨I.frame, ?_, I.len, hc⟩
+  apply List.ext_getElem?
+  intro a
+  rw [List.getElem?_take]
+  by_cases ha : a < h.length
+  · rw [if_pos ha]; exact I.frame a ha
+  · rw [if_neg ha, List.getElem?_eq_none (by omega)]
+
+/-- … and the extracted tree shares no object with the source: the node returned is an object allocated by the call, every object
+    allocated by the call has only such objects as children (so the whole result lies in the new region of the store), and each
+    carries a reference to a source node (`extraction_source`) -/
+theorem extract_result_is_new (acc : Acc) (fl fi sup : Bool) (t : T) (h : List Cell) :
+    (∀ a, (extractHeap acc fl fi sup t h).start = some a → h.length ≤ a ∧ a < (extractHeap acc fl fi sup t h).heap.length) ∧
+    (∀ a c, h.length ≤ a → (extractHeap acc fl fi sup t h).heap[a]? = some c →
+      (∀ k ∈ c.kids, h.length ≤ k ∧ k < (extractHeap acc fl fi sup t h).heap.length) ∧ c.src.isSome = true) := by
+  obtain ⟨I, _⟩ := extractHeap_inv acc fl fi sup t h
+  exact ⟨I.startOk, I.fresh⟩
+
 /-! ### the hypotheses are satisfiable, the statements are not vacuous -/
 def demo : T :=
   .node 0 none (some ⟨9, 1⟩) none
@@ -755,5 +943,16 @@ example : getTaxa true [(0, "A"), (1, "a"), (2, "B"), (3, "A")] ["b", "A"] = [0,
 example : (pruneWithLabels true [(0, "A"), (1, "A"), (2, "B"), (3, "C"), (4, "C")] ["A", "C"] true demo).map T.render
     = some "(5 2 21)" := by decide
 example : ((extractNode (fun i _ => i != 3) true false true demo 1).toOption).map T.render = some "(2 0 4)" := by decide
+
+example : (restrict (keepTaxa (fun k => k != 0)) true demo).map (fun r => (r.cs.length, r.collapseBasal.cs.length)) = some (2, 3) := by decide
+example : (pruneTaxaUpd (some false) (fun k => k == 0) true demo).map (fun r => (r.1.render, r.2))
+    = some ("(0 - 9 (3 1 13) (5 2 4) (6 - 7 (7 3 5) (8 4 6)))", [(2, 28), (4, 4), (8, 8), (16, 16), (24, 24), (30, 0)]) := by decide
+
+example : foldStr "ÀÉ×Þzß" = "àé×þzß" ∧ labelMatch false "Éa" "éA" = true ∧ labelMatch true "Éa" "éA" = false := by decide +kernel
+example : inFoldRange "Éa" = true ∧ inFoldRange "Σ" = false := by decide +kernel
+example : getTaxa false [(0, "Éa"), (1, "éA"), (2, "E")] ["éa"] = [0, 1] := by decide +kernel
+
+example : extractHeapShow (taxonFilter (fun k => k == 1 || k == 2)) true false true demo = "(0 - 9 (3 1 5) (5 2 12)) | source-intact" := by decide +kernel
+example : (extractHeap (taxonFilter (fun k => k == 1 || k == 2)) true false true demo (heapOf demo 9)).heap.length = 12 := by decide +kernel
 
 end DendroModel.C08
